@@ -298,8 +298,14 @@ def r_stable(c):
     m = c.model
     from pta.order import scan
     n = 0
+    # key code: the updaters, and every method of a key-builder class (an override
+    # of rec()/__call__ feeds the key just as well)
+    kb_methods = {id(f) for qn_, ci_ in m.classes.items()
+                  if any(x.split(".")[-1].endswith("KeyBuilder") for x in m.mro(qn_))
+                  for f in ci_.methods.values()}
     for mi, fd in m.all_functions():
-        if not (fd.name == "update_persistent_hash" or fd.name.startswith("update_for_")):
+        if not (fd.name == "update_persistent_hash" or fd.name.startswith("update_for_")
+                or id(fd) in kb_methods):
             continue
         n += 1
         qn = m.qualname(fd).replace("pytato.", "", 1)
@@ -429,9 +435,46 @@ def r_pickle(c):
         o.rule = "R18-PICKLE"
 
 
+def r_dtype_normalised(c):
+    """np.float64, "float64", float and np.dtype("float64") are four spellings that
+    compare equal as dtypes but are keyed (and hashed) differently.  A node only ever
+    holds a np.dtype: wherever a function hands its own `dtype` parameter to a node
+    constructor, the parameter went through np.dtype(...) first"""
+    m = c.model
+    n = 0
+    node_classes = {short(q) for q in m.classes if "dtype" in (m.fields(q) or {})}
+    for mi, fd in m.all_functions():
+        params = [a.arg for a in fd.args.posonlyargs + fd.args.args + fd.args.kwonlyargs]
+        if "dtype" not in params or fd.name.startswith("__"):
+            continue
+        norm = [a for a in ast.walk(fd) if isinstance(a, ast.Assign) and any(
+            isinstance(t, ast.Name) and t.id == "dtype" for t in a.targets)
+            and isinstance(a.value, ast.Call) and ast.unparse(a.value.func) in (
+                "np.dtype", "numpy.dtype")]
+        for call in ast.walk(fd):
+            if not (isinstance(call, ast.Call) and isinstance(call.func, ast.Name)
+                    and call.func.id in node_classes):
+                continue
+            for k in call.keywords:
+                if k.arg == "dtype" and isinstance(k.value, ast.Name) and k.value.id == "dtype":
+                    n += 1
+                    ok = any(a.lineno < call.lineno for a in norm)
+                    qn = m.qualname(fd).replace("pytato.", "", 1)
+                    c.check(ok, "R18-STABLE", qn, f"dtype-normalised-before-{call.func.id}",
+                            m.loc(mi, call),
+                            f"the `dtype` parameter is handed to {call.func.id}(...) as given, "
+                            "without np.dtype(dtype): np.float64 / 'float64' / float then "
+                            "build nodes that are == to the np.dtype one but have another "
+                            "persistent key and another hash")
+    if n < 2:
+        raise AnalysisError(f"only {n} constructor calls taking a dtype parameter found "
+                            "(floor 2)")
+
+
 SPEC = Spec(
     prop="C18",
-    rules=[r_ndarray, r_closure, r_stable, r_pickle, r_no_dynamic_attrs],
+    rules=[r_ndarray, r_closure, r_stable, r_pickle, r_no_dynamic_attrs,
+           r_dtype_normalised],
     floors={"R18-NDARRAY": 5, "R18-CLOSURE": 35, "R18-STABLE": 5, "R18-PICKLE": 5},
     explanation=(
         "R18-NDARRAY: the attributes of the wrapped array that flow into the key "
